@@ -50,6 +50,8 @@ type Sched struct {
 	pendingAdv time.Duration
 	start      time.Time
 	onces      map[*sync.Once]*onceState
+	free       bool // RaceMode: tasks run unscheduled
+	wg         sync.WaitGroup
 }
 
 const (
@@ -112,6 +114,12 @@ func (r *Run) Bubble(t *testing.T, maxSteps int, f func(s *Sched)) {
 		}
 	}
 	r.Info["strategy"] = stratNames[s.strategy]
+	if RaceMode {
+		// race-detector lane: no scheduler, the tasks are plain goroutines running in parallel
+		s.free = true
+		r.Guard(func() { f(s) })
+		return
+	}
 	r.sched = s
 	defer func() {
 		r.sched = nil
@@ -144,6 +152,14 @@ func (r *Run) Bubble(t *testing.T, maxSteps int, f func(s *Sched)) {
 // Go starts a harness task. class is used by the starve strategy
 // (0 = driver/spawner, 1 = workers/servers, 2 = other).
 func (s *Sched) Go(name string, class int, fn func()) {
+	if s.free {
+		s.wg.Add(1)
+		go func() {
+			defer s.wg.Done()
+			s.r.Guard(fn)
+		}()
+		return
+	}
 	s.mu.Lock()
 	t := s.newTaskLocked(name, class)
 	s.mu.Unlock()
@@ -186,6 +202,9 @@ func (s *Sched) park(t *task, site string) {
 // Advance asks the scheduler to move the simulated clock forward by d before
 // the next task is released. Must be called by a task; it yields.
 func (s *Sched) Advance(d time.Duration) {
+	if s.free {
+		return
+	}
 	s.mu.Lock()
 	s.pendingAdv += d
 	s.mu.Unlock()
@@ -194,6 +213,10 @@ func (s *Sched) Advance(d time.Duration) {
 
 // Loop is the scheduler proper; it returns when every task has finished.
 func (s *Sched) Loop() {
+	if s.free {
+		s.wg.Wait()
+		return
+	}
 	r := s.r
 	idle := 0
 	for {
